@@ -233,12 +233,18 @@ func convertHex(data interface{}) {
 			switch d[0].(type) {
 			case string:
 				for i, s := range d {
-					ch, err := chainhash.NewHashFromStr(s.(string))
-					if err == nil && len(s.(string)) == 64 {
+					// Only the first element was inspected above: leave
+					// elements of any other type untouched.
+					str, ok := s.(string)
+					if !ok {
+						continue
+					}
+					ch, err := chainhash.NewHashFromStr(str)
+					if err == nil && len(str) == 64 {
 						d[i] = base64.StdEncoding.EncodeToString(ch.CloneBytes())
 						continue
 					}
-					decoded, err := hex.DecodeString(s.(string))
+					decoded, err := hex.DecodeString(str)
 					if err == nil {
 						d[i] = base64.StdEncoding.EncodeToString(decoded)
 					}
